@@ -1633,7 +1633,38 @@ pub fn g_r(fmt: Fmt, r: &Recipe, lim: Limits) -> Case {
 // the big integer then has a chosen number of limbs when its high 64 bits are taken (1, 2, 3, ... 32-bit
 // limbs; 1, 2 64-bit limbs), which selects the arm of `hi64`.
 
+/// Decimal expansions of the values at which a 64- or 32-bit digit accumulator wraps (k * 2^64, k * 2^32, and
+/// their neighbours), optionally followed by zeros, in every layout.
+fn wrap_point_case(r: &Recipe) -> Case {
+    let k = 1 + (r.k[1] % 9) as u128;
+    let base: u128 = match r.k[2] % 4 {
+        0 | 1 => k << 64,
+        2 => k << 32,
+        _ => (k << 64) + ((r.a as u128 % 7) << 32),
+    };
+    let v = match r.k[3] % 5 {
+        0 => base + 1,
+        1 => base - 1,
+        _ => base,
+    };
+    let mut d: Vec<u8> = v.to_string().bytes().map(|c| c - b'0').collect();
+    let zeros = match (r.k[3] / 5) % 4 {
+        0 => 0,
+        1 => 1 + (r.b % 5) as usize,
+        2 => 20 + (r.b % 30) as usize,
+        _ => (r.b % 800) as usize,
+    };
+    let point = d.len() as i64 + (r.b >> 16) as i64 % 61 - 30;
+    d.extend(std::iter::repeat(0).take(zeros));
+    let allow = d.last() == Some(&0);
+    let (int, frac, exp, lay) = layout(&d, point, r.sel[4], r.k[0], allow);
+    Case { int, frac, exp, family: "G-T tie integer by bit length", variant: "accumulator wrap point (k*2^64, k*2^32)", layout: lay, expect: None }
+}
+
 pub fn g_t(fmt: Fmt, r: &Recipe) -> Case {
+    if r.sel[3] % 4 == 0 {
+        return wrap_point_case(r);
+    }
     let p = fmt.mbits() as u64 + 1;
     // total bit length of the tie integer (2M+1) * 2^j: from p+1 (the smallest integer tie) to p+1+120
     let extra = match r.k[0] % 4 {
